@@ -37,13 +37,18 @@ def run(tier):
     for it in range(n):
         lang = 'en' if it % 2 else 'ja'
         rf.set_lang(lang)
-        b = trees.make_batch(rng, lang, awkward=0.5)
+        b = trees.make_batch(rng, lang, awkward=0.5, sparse=it % 4 == 3)
         words = [[t['tok']['word'] for t in trees.leaves_of(s[0])] for s in b]
         for f in (rf.FORMATS_JA if lang == 'ja' else rf.FORMATS_EN):
             real = trees.real_batch(b, random.Random(it))          # one parse result: the same derivations and scores for every format
             base = {'lang': lang, 'words': words, 'probe': cannot_carry(f, words), 'shape': [len(s) for s in b]}
             rf.render_events(PROP, f, lang, b, real, add, base)
             per_fmt[f] = per_fmt.get(f, 0) + 1
+    from ..tlc import run_tlc, require_clean
+    from ..common import NCPU, Machinery
+    mr = require_clean(run_tlc('MCFormats.tla', 'MCFormats.cfg' if tier == 'quick' else 'MCFormats_4.cfg', workers=NCPU, timeout=1800), 'MCFormats')
+    if mr.violated:
+        raise Machinery('Formats.tla laws violated (specification inconsistent): %s' % mr.violated)
     rejects, stats = validate('traces/RenderTrace.tla', events, 'c07', per_shard=500)
     viols = []
     unrenderable = 0
@@ -54,7 +59,8 @@ def run(tier):
         if clause.startswith(PROP + '.'):
             m = metas[i]
             viols.append(Violation(PROP, clause, (m.get('probe', '') + ' ' + str(m.get('words')))[:300].strip(), m))
-    cov = {'states': stats.states, 'transitions': stats.transitions, 'traces_validated_against_impl': len(events),
+    cov = {'tlc_runs': [{'cfg': 'MCFormats', 'distinct': mr.distinct, 'generated': mr.generated, 'wall_s': round(mr.wall, 1)}],
+           'states': stats.states + mr.distinct, 'transitions': stats.transitions + mr.generated, 'traces_validated_against_impl': len(events),
            'events': {'parse_results': n, 'renderings_by_format': per_fmt, 'events': len(events), 'renderings_that_raised_not_judged_here': unrenderable,
                       'tree_events': sum(1 for e in events if e['e'] == 'tree')},
            'samples': [{k: metas[i][k] for k in metas[i] if k in ('lang', 'fmt', 'words', 'text')} for i in (1, len(events) // 2, len(events))],
